@@ -8,6 +8,8 @@ import (
 	"runtime/debug"
 	"sort"
 
+	"golang.org/x/tools/go/ssa"
+
 	"stgverif/internal/core"
 	"stgverif/internal/rules"
 )
@@ -18,6 +20,45 @@ func main() {
 		os.Exit(2)
 	}
 	prop, tier := os.Args[1], os.Args[2]
+	if prop == "paths" {
+		// developer aid: print canonical access paths and bit vectors of a function
+		prog, err := core.Load(core.RepoDir(), "")
+		if err != nil {
+			fmt.Println(err)
+			os.Exit(2)
+		}
+		fn := prog.Func(os.Args[2], os.Args[3])
+		if fn == nil {
+			fmt.Println("no such function")
+			os.Exit(2)
+		}
+		p := core.NewPather(fn)
+		ba := core.NewBitAnalyzer(fn)
+		for _, b := range fn.Blocks {
+			fmt.Printf("block %d (%s) preds=%d succs=%v\n", b.Index, b.Comment, len(b.Preds), succIdx(b))
+			for _, in := range b.Instrs {
+				switch x := in.(type) {
+				case *ssa.Store:
+					fmt.Printf("   store %s := %s   bits: %s\n", p.Path(x.Addr), p.Path(x.Val), ba.Bits(x.Val).Describe())
+				case *ssa.Return:
+					for _, r := range x.Results {
+						fmt.Printf("   return %s   bits: %s\n", p.Path(r), ba.Bits(r).Describe())
+					}
+				case *ssa.If:
+					fmt.Printf("   if %s\n", p.Path(x.Cond))
+				case ssa.CallInstruction:
+					if v, ok := in.(ssa.Value); ok {
+						fmt.Printf("   %s\n", p.Path(v))
+					} else {
+						fmt.Printf("   %s (defer/go)\n", core.CalleeName(x.Common()))
+					}
+				case *ssa.Phi:
+					fmt.Printf("   %s = %s\n", x.Name(), p.Path(x))
+				}
+			}
+		}
+		return
+	}
 	if prop == "mutants" {
 		// developer entry: run only the checker self-test of one property
 		self, _ := os.Executable()
@@ -112,4 +153,12 @@ func run(prop, tier, only string) (code int) {
 		}
 	}
 	return ctx.Finish(extra)
+}
+
+func succIdx(b *ssa.BasicBlock) []int {
+	var o []int
+	for _, s := range b.Succs {
+		o = append(o, s.Index)
+	}
+	return o
 }
